@@ -7,7 +7,7 @@ from . import c01
 from .c04 import ref_scores
 
 PROP = "C06"
-LEAN_MODULE = "VK.Props.C06"
+LEAN_MODULE = "VK.Check.C06"
 THEOREMS = [
     "VK.C06_margin_antisymm",
     "VK.C06_prefShare_cases",
@@ -24,6 +24,7 @@ THEOREMS = [
     "VK.C06_prefShareR_cases",
     "VK.prefShareR_untied",
     "VK.h2h_eq_flat",
+    "VK.kernel_fill_share_used",
 ]
 RULE = ("cases = profile of ranked ballots (2-6 candidates, partial ballots, rational weights, zero-vote "
         "candidates; 30% of the random profiles with tied positions; 35% engineered: Condorcet cycles of length 3-5, nested cycles, exact pairwise ties) -> "
